@@ -722,7 +722,8 @@ impl Writer for UperWriter {
 
     #[inline]
     fn write_null<C: null::Constraint>(&mut self, _value: &Null) -> Result<(), Self::Error> {
-        Ok(())
+        // no content, but the enclosing sequence counts its fields through these calls
+        self.write_bit_field_entry(false, true)
     }
 }
 
@@ -1407,6 +1408,8 @@ impl<B: ScopedBitRead> Reader for UperReader<B> {
 
     #[inline]
     fn read_null<C: null::Constraint>(&mut self) -> Result<Null, Self::Error> {
+        // no content, but the enclosing sequence counts its fields through these calls
+        let _ = self.read_bit_field_entry(false)?;
         Ok(Null)
     }
 }
